@@ -52,7 +52,8 @@ class cpu_budget:
 
     def __enter__(self):
         self.old = signal.signal(signal.SIGVTALRM, self._fire)
-        signal.setitimer(signal.ITIMER_VIRTUAL, self.secs)
+        # repeating: code under observation may swallow the first exception in a bare `except:`
+        signal.setitimer(signal.ITIMER_VIRTUAL, self.secs, 2.0)
 
     def __exit__(self, *a):
         signal.setitimer(signal.ITIMER_VIRTUAL, 0)
